@@ -420,3 +420,68 @@ package main
 //@   panics iff glob(panicval) != zero(glob(panicval))
 //@   onpanic exit-code-1: glob(exitcode) == 1
 //@   onpanic diagnostic: prefixof(old(glob(stdout)) + fname + ": ", glob(stdout))
+
+// ---------------------------------------------------------------------------------------------
+// C08 / C10: the binary-operator factory.  Every node keeps the accumulated expression on the left and
+// the new operand on the right; = and <> become two-argument calls of the Go function named in the
+// operator table (frt.OpEqual / frt.OpNotEqual), |> a call of frt.Pipe / frt.PipeUnit.
+// ---------------------------------------------------------------------------------------------
+
+//@ func GenFunc
+//@   trusted
+//@   panics may
+//@   note abstract: instantiates the type parameters of a function factory with fresh type variables
+
+//@ func ExprToType
+//@   trusted
+//@   panics may
+//@   note abstract: the type of an expression (inference context)
+
+//@ func GenFuncVar
+//@   props C08 C10
+//@   panics may
+//@   ensures plain: len(stlist) == 0 ==> is(VarRef_VRVar, result) && VarRef_VRVar_Value(result).Name == vname
+
+//@ func genBuiltinFunCall
+//@   props C08 C10
+//@   panics may
+//@   ensures call: is(Expr_EFunCall, result) && Expr_EFunCall_Value(result).Args == args && is(VarRef_VRVar, Expr_EFunCall_Value(result).TargetFunc) && VarRef_VRVar_Value(Expr_EFunCall_Value(result).TargetFunc).Name == fname
+
+//@ func newEqNeq
+//@   props C08 C10
+//@   panics may
+//@   ensures call: is_call2(result, goFname, lhs, rhs)
+
+//@ func newPipeCallNormal
+//@   props C08
+//@   panics may
+//@   ensures call: is_call2(result, "frt.Pipe", lhs, rhs)
+
+//@ func newPipeCallUnit
+//@   props C08
+//@   panics may
+//@   ensures call: is_call2(result, "frt.PipeUnit", lhs, rhs)
+
+//@ func newPipeCall
+//@   props C08
+//@   panics may
+//@   ensures call: is_call2(result, "frt.Pipe", lhs, rhs) || is_call2(result, "frt.PipeUnit", lhs, rhs)
+
+//@ func newBinOpNormal
+//@   props C08
+//@   panics may
+//@   ensures node: is_binnode(result, binfo.GoFuncName, lhs, rhs)
+
+//@ func newBinOpCall
+//@   props C08 C10
+//@   panics may
+//@   ensures pipe: is(TokenType_PIPE, tk) ==> is_call2(result, "frt.Pipe", lhs, rhs) || is_call2(result, "frt.PipeUnit", lhs, rhs)
+//@   ensures equality: is(TokenType_EQ, tk) || is(TokenType_BRACKET, tk) ==> is_call2(result, binfo.GoFuncName, lhs, rhs)
+//@   ensures other: !is(TokenType_PIPE, tk) && !is(TokenType_EQ, tk) && !is(TokenType_BRACKET, tk) ==> is_binnode(result, binfo.GoFuncName, lhs, rhs)
+
+// emission of a binary node: always parenthesised, operands in order (the grouping of the tree is the
+// parenthesisation of the output)
+//@ func binOpToGo
+//@   props C08
+//@   panics never
+//@   returns "(" + eGo(binOp.Lhs) + binOp.Op + eGo(binOp.Rhs) + ")"
